@@ -388,6 +388,35 @@ async function op_stream_vs_bulk(req) {
     return {runs: runs, cases: cases_done, mismatches: mismatches, mismatch_runs: bad_total, faithful_traces: traces, bulk_errors: bulk_errors};
 }
 
+async function op_query_unbounded(req) {
+    // bounded streaming query over an unbounded lazy input: a Proxy that looks like an endless array and throws once the read budget is exceeded
+    const cells = ['a', 'b', 'ab', '1', '2'];
+    let reads = 0;
+    let max_index = -1;
+    let lazy = new Proxy([], {
+        get(target, prop) {
+            if (prop === 'length') return Number.MAX_SAFE_INTEGER;
+            if (typeof prop === 'string' && /^[0-9]+$/.test(prop)) {
+                let k = Number(prop);
+                reads += 1;
+                max_index = Math.max(max_index, k);
+                if (reads > req.budget) throw new Error('ReadBudgetExceeded: read ' + reads + ' records, budget ' + req.budget);
+                let rec = [];
+                for (let j = 0; j < req.width; j++) rec.push(cells[((k * (j + 2) + j) % req.period) % cells.length]);
+                return rec;
+            }
+            return target[prop];
+        }
+    });
+    let out = [], warnings = [], error = null;
+    try {
+        await rbql.query_table(req.query, lazy, out, warnings, req.join === undefined ? null : req.join);
+    } catch (e) {
+        error = err_info(e);
+    }
+    return {out: out.map((r) => Array.isArray(r) ? r.map(jsonable) : jsonable(r)), error: error, reads: reads, max_index: max_index};
+}
+
 async function handle(req) {
     switch (req.op) {
         case 'hello': scratch_dir = req.scratch; return {ok: true, node: process.version, js_dir: JS_DIR, rbql_version: rbql.version};
@@ -403,6 +432,7 @@ async function handle(req) {
         case 'like_batch': return await op_like_batch(req);
         case 'roundtrip_batch': { let rs = []; for (let c of req.cases) rs.push(await op_roundtrip(c)); return {results: rs}; }
         case 'stream_vs_bulk': return await op_stream_vs_bulk(req);
+        case 'query_unbounded': return await op_query_unbounded(req);
         case 'like_cross': return await op_like_cross(req);
         default: return {error: {cls: 'DriverError', msg: 'unknown op ' + req.op}};
     }
